@@ -161,9 +161,9 @@ func runSched(sc *SchedCase) (violation string) {
 // RunSched runs the writer-vs-maintenance schedules of C13.
 func RunSched(col *core.Collector, tier string, seed uint64, shard, nshards int, replayDir string) {
 	col.Note("rule: schedule part: a writer is parked inside Clock.NowNano after it sampled T0, maintenance runs at T1 >> T0, the writer resumes, and a CleanUp more than one tick later must have removed and reported the entry; non-trivial = the deadline computed from T0 lies before T1; distinct = hash of the schedule parameters")
-	n := 300
+	n := 1500
 	if tier == "thorough" {
-		n = 20000
+		n = 60000
 	}
 	for i := shard; i < n; i += nshards {
 		r := core.NewRng(core.Derive(seed, core.StrLabel("C13sched"), uint64(i)))
